@@ -166,6 +166,21 @@ def run(ctx):
         R.ob('C13.admit', ('admission', 'tracker handed out is the one the table knows', arm), ok,
              'the tracker given to an admitted channel is the upgrade of the key\'s entry, or a fresh tracker whose downgrade is stored in that entry before it is returned', [adm.loc(s)], '; '.join(det))
 
+    # a channel is shed only by the admission decision above: no other code on the accept path manufactures a refusal (e.g. from a remembered earlier refusal)
+    adm_ids = {b_.id for b_ in F.with_descendants(adm)}
+    other_err = [(g, s_) for g in reach if g.id not in adm_ids for _, _, s_ in g.aggregates('std::result::Result', 'Err') if not s_.get('expn')]
+    R.ob('C13.admit', ('accept path', 'refusals come only from the admission decision'), not other_err,
+         'the only place that refuses a channel is the admission function, under strong_count(entry) >= channels_per_key evaluated for this arrival', [g.loc(s_) for g, s_ in other_err] or [adm.loc(adm.d)])
+    # ... and the admission function is consulted for every arrival: the function that builds the TrackedChannel calls it unconditionally
+    builders = [g for g in reach if any(True for _ in g.aggregates('TrackedChannel'))]
+    for g in builders:
+        calls_adm = [bb for bb, t in g.calls() if F.callee_fn(t) is adm]
+        ok_b = len(calls_adm) == 1 and cfg.all_paths_pass(g, 0, cfg.exits(g), set(calls_adm))
+        R.ob('C13.admit', ('accept path', 'every arrival is put to the admission decision'), ok_b,
+             'the function that wraps an accepted transport calls the admission function on every path (no shortcut decides without looking at the key\'s live count)', [g.loc(g.d)])
+    if not builders:
+        raise CannotDecide('no function builds a TrackedChannel')
+
     # the map stores the downgrade of the tracker it hands out
     for bb, t in adm.calls():
         if callee_is(t, 'hash_map::VacantEntry::insert'):
